@@ -608,9 +608,10 @@ func (s *Step) ClientSend(c *RawClient, peer *net.UDPAddr, payload []byte) *Expe
 	if a != nil {
 		e.FromRelay = a.Relay
 	}
-	if e.V != MustDrop && (m.msgOversize(len(raw)) || len(payload) > simnet.MaxUDPPayload) {
+	unsendable := len(raw)-wire.HeaderSize > 65535 || (!c.IsTCP && len(raw) > simnet.MaxUDPPayload)
+	if e.V != MustDrop && (m.msgOversize(len(raw)) || len(payload) > simnet.MaxUDPPayload || unsendable) {
 		e.V, e.Reason = May, "oversize"
-		if len(payload) > simnet.MaxUDPPayload || (!c.IsTCP && len(raw) > simnet.MaxUDPPayload) {
+		if len(payload) > simnet.MaxUDPPayload || unsendable {
 			e.V, e.Reason = MustDrop, "oversize-udp"
 		}
 	}
@@ -621,7 +622,9 @@ func (s *Step) ClientSend(c *RawClient, peer *net.UDPAddr, payload []byte) *Expe
 	if e.V != May {
 		m.Rec.FP("send/%s/%s/fam%d", e.Reason, transportOf(c), famOf(peer.IP))
 	}
-	_ = c.SendRaw(raw)
+	if !unsendable { // a STUN message cannot carry more than 65535 attribute bytes; a UDP datagram not more than 65507
+		_ = c.SendRaw(raw)
+	}
 	s.exp = append(s.exp, e)
 
 	return e
@@ -681,9 +684,10 @@ func (s *Step) ClientChanData(c *RawClient, num uint16, payload []byte, pad bool
 	if a != nil {
 		e.FromRelay = a.Relay
 	}
-	if e.V != MustDrop && (m.msgOversize(len(raw)) || len(payload) > simnet.MaxUDPPayload) {
+	unsendable := !c.IsTCP && len(raw) > simnet.MaxUDPPayload
+	if e.V != MustDrop && (m.msgOversize(len(raw)) || len(payload) > simnet.MaxUDPPayload || unsendable) {
 		e.V, e.Reason = May, "oversize"
-		if len(payload) > simnet.MaxUDPPayload {
+		if len(payload) > simnet.MaxUDPPayload || unsendable {
 			e.V, e.Reason = MustDrop, "oversize-udp"
 		}
 	}
